@@ -41,8 +41,8 @@ def selftest(ctx):
     ctx.build_harness()
     base = ctx.scratch + "/self.ndjson"
     ctx.harness(gen(base), env={"VERIF_SHARDS": "64"})
-    lines = open(base + ".0").read().splitlines()[:120]
-    rl = open(base + ".replay.0").read().splitlines()[:120]
+    lines = open(base + ".0").read().split("\n")[:120]
+    rl = open(base + ".replay.0").read().split("\n")[:120]
     bad = 0
     out = []
     for i, ln in enumerate(lines):
